@@ -386,6 +386,10 @@ class SamplerCore:
 
     def _initialize_fresh(self):
         """Initialize fresh run (replaces part of Sampler.run)."""
+        # Seed the run from the user's random_state so that equal seeds give
+        # identical runs regardless of what was drawn before in this process.
+        if self.config.random_state is not None:
+            np.random.seed(self.config.random_state)
         self.state.set_current("iter", 0)
         self.state.set_current("calls", 0)
         self.state.set_current("beta", 0.0)
